@@ -559,9 +559,10 @@ def native_check_v1(vals, idx_at, dat_at, patches):
     off_o, size_o = entry(x, y)
     off_b, size_b = entry(x2, y2)
     same = (x % 128 == x2 % 128) and (y % 128 == y2 % 128)
-    if not (valid(off_o, size_o) and valid(off_b, size_b)):
+    need_o = vals['op'] == 'store'       # a remove assumes nothing about the slot it removes
+    if not ((valid(off_o, size_o) or not need_o) and valid(off_b, size_b)):
         return False, 'pre-state does not satisfy the invariant (model artefact)', (fi.reads, fd.reads)
-    if not same and off_o and off_b and not (off_o + 4 + size_o <= off_b or off_b + 4 + size_b <= off_o):
+    if need_o and not same and off_o and off_b and not (off_o + 4 + size_o <= off_b or off_b + 4 + size_b <= off_o):
         return False, 'pre-state records overlap (model artefact)', (fi.reads, fd.reads)
     old_a = fd.get(a)
     try:
